@@ -71,3 +71,14 @@ func VerifPFeed(p P2PInterface, m P2PMessage) {
 	case n.peersFeed <- m:
 	}
 }
+
+// VerifPRunClient runs client.run (read → decrypt → decode → dispatch → pack → encrypt → send) for a
+// client in the state a finished handshake leaves it in; it returns when run returns.
+func VerifPRunClient(conn net.Conn, remotePub kyber.Point, dhKey, dhNonce []byte, feed chan P2PMessage) error {
+	c := verifPClient([]byte("local"), conn)
+	c.peerFeed = feed
+	c.remotePubKey = remotePub
+	c.dhKey, c.dhNonce = dhKey, dhNonce
+	defer c.cancel()
+	return c.run()
+}
